@@ -79,6 +79,14 @@ def run(tier):
         w["writer"] = "stream"
         cases = [dict(w, writes=[{"k": k, "v": rng.choice(vt + ["NIL"]), "fault": ""} for k in written], readers=sstrun.reader_cfgs(rng), probes=pr, ranges=rg)]
         batches.append(("big%d-%s-%d" % (i, fam, n), keys, concrete.value_family(rng.choice(concrete.VALUE_FAMILIES), vt, rng), cases))
+    # tables with values above the 512 KiB buffer-pool limit of the record readers, uncompressed and compressed
+    for i, (dc, ic) in enumerate([(0, 0), (2, 2)] if not thorough else [(0, 0), (2, 2), (1, 3), (3, 1)]):
+        keys = concrete.key_family("be4", 6, rng)
+        vt = ["vA", "vB", "vC", "vD"]
+        w = dict(sstrun.writer_cfg(rng), dcomp=dc, icomp=ic, writer="stream")
+        cases = [dict(w, writes=[{"k": k, "v": (vt + ["NIL", "EMPTY"])[k % 6], "fault": ""} for k in range(6)], readers=sstrun.reader_cfgs(rng),
+                      probes=list(range(6)), ranges=[[0, 5], [1, 3], [2, 2]])]
+        batches.append(("hugevals-%d" % i, keys, concrete.value_family("huge", vt + ["EMPTY"], rng), cases))
     total = sstrun.run_batches(o, binary, batches, "C03")
     o.evaluations = total
     o.nontrivial = len(tables) - 1 + nbig
